@@ -98,6 +98,9 @@ pub struct SchedStats {
     pub lock_contended: u64,
 }
 
+/// explicit decision meaning "whoever is running keeps running" (written by the schedule minimiser)
+pub const STAY: u8 = 255;
+
 thread_local! {
     static CRIT: Cell<u32> = const { Cell::new(0) };
 }
@@ -189,7 +192,11 @@ impl Sched {
         let idx = if inner.choice_pos < inner.spec.choices.len() {
             let c = inner.spec.choices[inner.choice_pos] as usize;
             inner.choice_pos += 1;
-            c % runnable.len()
+            if c == STAY as usize {
+                me.and_then(|m| runnable.iter().position(|r| *r == m)).unwrap_or(0)
+            } else {
+                c % runnable.len()
+            }
         } else if runnable.len() == 1 {
             0
         } else {
@@ -217,6 +224,7 @@ impl Sched {
                     best
                 }
                 Strategy::RoundRobin | Strategy::Free => 0,
+                Strategy::Stay => me.and_then(|m| runnable.iter().position(|r| *r == m)).unwrap_or(0),
             }
         };
         inner.choices.push(idx as u8);
